@@ -4,6 +4,8 @@ driver produces about 20 000 events/s."""
 import os, json
 from concurrent.futures import ThreadPoolExecutor
 from vlib import Broken
+import threading
+_lock = threading.Lock()
 
 ASSUME_COMMON = [
     "TLC is exhaustive only within the stated constants; beyond them the evidence is conformance sampling",
@@ -247,7 +249,7 @@ CHECK_DEADLOCK FALSE
        "TRUE" if quiescent else "FALSE", depth)
 
 
-def reclaim_replay(ctx, hists, accept, cb, modes=("mem", "file"), closeall=True):
+def reclaim_replay(ctx, hists, accept, cb, modes=("mem", "file"), closeall=True, refcount=False):
     """Split the histories into chunks, replay each chunk on the real library
     in its own process, validate every trace."""
     lines = open(hists).read().splitlines()
@@ -265,11 +267,23 @@ def reclaim_replay(ctx, hists, accept, cb, modes=("mem", "file"), closeall=True)
     def one(j):
         inp, mode, c = j
         out = inp.replace(".jsonl", ".ndjson")
-        args = ["reclaim", "-seed", ctx.seed * 1000 + c, "-in", inp, "-out", out, "-cb", cb, "-mode", mode, "-prop", ctx.prop]
+        rout = inp.replace(".jsonl", ".rstate.ndjson")
+        args = ["reclaim", "-seed", ctx.seed * 1000 + c, "-in", inp, "-out", out, "-rout", rout, "-cb", cb, "-mode", mode,
+                "-prop", ctx.prop]
         if not closeall:
             args.append("-closeall=false")
         st, poisoned = ctx.drive(args)
         r = ctx.validate(out, accept, cmdline=" ".join(map(str, [ctx.bin] + args)))
+        if refcount and not poisoned and mode == "mem":
+            # refcount-level binding of Reclaim.tla to the code (drift diagnostics only)
+            ev0, tr0 = ctx.events, ctx.traces
+            rr = ctx.validate(rout, set(), module="Trace_Reclaim.tla", cfg="Trace_Reclaim.cfg")
+            ctx.events, ctx.traces = ev0, tr0
+            with _lock:
+                ctx.coverage_extra["refcount_states_compared"] = ctx.coverage_extra.get("refcount_states_compared", 0) + rr["depth"] - 1
+                ctx.coverage_extra["refcount_drift"] = ctx.coverage_extra.get("refcount_drift", 0) + rr["out"].count('"DRIFT"')
+        if os.path.exists(rout):
+            os.remove(rout)
         if not any(out in json.dumps(v) for v in ctx.violations):
             os.remove(out)
         os.remove(inp)
@@ -284,7 +298,7 @@ def check_C10(ctx):
         ctx.model_check("Reclaim.tla", "MC_Reclaim_t2.cfg", timeout=3000)
     h1 = os.path.join(ctx.work, "hist-exh.jsonl")
     ctx.generate("Gen_Reclaim.tla", "gen.cfg", reclaim_cfg([1, 2], [1, 2], 4, 1, 1, q(ctx, 4, 5), False), h1)
-    reclaim_replay(ctx, h1, {"C10", "C04"}, 0, modes=q(ctx, ("mem",), ("mem", "file")))
+    reclaim_replay(ctx, h1, {"C10", "C04"}, 0, modes=q(ctx, ("mem",), ("mem", "file")), refcount=True)
     h2 = os.path.join(ctx.work, "hist-sim.jsonl")
     ctx.generate("Gen_Reclaim.tla", "gen.cfg", reclaim_cfg([1, 2, 3], [1, 2], 7, 2, 2, 10, False, maxver=14), h2,
                  simulate=(q(ctx, 150, 4000), 11), limit=q(ctx, 900, 30000))
@@ -296,7 +310,9 @@ def check_C10(ctx):
                       "the Reclaim alphabet to the depth bound plus simulated deeper ones are replayed on the real library (memory and "
                       "file-backed); after every step every open handle is observed (API / introspection) and no node reachable from a live "
                       "handle may be on the free list; in-flight visits must deliver the contents at their start; followed by unrelated "
-                      "allocation in another store; non-trivial = history with >= 1 release of a handle or reader",
+                      "allocation in another store; the same replays are also validated against Reclaim.tla itself at the level of version "
+                      "reference counts and chaining (Trace_Reclaim.tla; internal quantities, differences reported as drift only); "
+                      "non-trivial = history with >= 1 release of a handle or reader",
                       ASSUME_COMMON + ["free-list and reachability facts come from the verif-tag introspection functions"])
 
 
